@@ -768,6 +768,11 @@ func c04(p *core.Program, r *core.Report) {
 			if eng.IsCallTo(c, mod+"/encoding/wkbcommon", "ReadUInt32") {
 				process(fn, c, 0, "ReadUInt32", false, -1)
 			}
+			// a decoded byte is a count source as well (a count assembled from bytes): it has no size sinks on the
+			// tree - the byte-order byte is only compared - and gets obligations as soon as it has
+			if eng.IsCallTo(c, mod+"/encoding/wkbcommon", "ReadByte") {
+				process(fn, c, 0, "ReadByte", false, -1)
+			}
 		}
 	}
 	// counts handed on by decoder functions (two levels of wrappers)
@@ -921,6 +926,7 @@ func c04(p *core.Program, r *core.Report) {
 	readerDiscipline(p, r, "reader-discipline")
 	outputIndexCoversLoopsRule(p, r, "output-index-covers-loops")
 	sizeArithmeticFitsRule(p, r, "size-arithmetic-fits-int")
+	integersOnlyThroughPrimitivesRule(p, r, "integers-through-primitives")
 	membersThroughPush(p, r, "members-through-push")
 
 	r.Assume("VTA call graph is sound for non-reflective calls; encoding/json reflection edges to (Un)MarshalJSON are added by hand")
